@@ -16,7 +16,7 @@ def line_radialrange(c):
     P, seg = mkseg(c, 2)
     z = c.cplx('z')
     tau = c.real('tau')
-    c.assume(ops.ne(P[0], P[1]))
+    # no non-degeneracy assumption: a zero-length Line is a Line (the parser produces them)
     mn, mx = _unpack(c, c.callm(seg, 'radialrange', z))
     dmin, tmin = mn[0], mn[1]
     dmax, tmax = mx[0], mx[1]
@@ -142,6 +142,9 @@ def path_radialrange(c, kinds):
     dmin, tmin, imin = c.items(mn)
     dmax, tmax, imax = c.items(mx)
     n = len(segs)
+    c.ensures('every-segment-is-consulted', sorted(table) == list(range(n)))
+    if sorted(table) != list(range(n)):
+        return
     # some point of the path is not the query point (otherwise no farthest segment exists)
     c.assume(ops.Or(*[ops.lt(0, table[i][1][0]) for i in range(n)]))
     c.ensures('min-index-in-range', isinstance(imin, int) and 0 <= imin < n)
